@@ -32,6 +32,13 @@ func TestC20Explore(t *testing.T) {
 				fmt.Println("PARSE ERROR:\n" + o.Key[len(prelude):])
 			}
 		}
+		for _, cl := range o.Classes {
+			if len(cl) > 5 && cl[:5] == "soft:" && os.Getenv("C20_EXPLORE_SOFT") != "" {
+				b := run(c, build(c, mask(len(c.Slots), func(int) bool { return false })))
+				x := run(c, o.Key)
+				fmt.Printf("SOFT %s\n%s  baseline: %v\n  chained: %v\n", cl, o.Key[len(prelude):], b.err, x.err)
+			}
+		}
 		if f != nil {
 			count[f.Sig]++
 			if _, ok := first[f.Sig]; !ok {
